@@ -127,6 +127,9 @@ def register(reg):
     reg.OBLIGATIONS['C18'] = obs
     # C03: the SessionManager obligations also carry the functional contracts (exactly the caller's session / every session of the slot goes, the other token's table entries keep their place, logout exactly on the last close)
     reg.OBLIGATIONS['C03'] = reg.OBLIGATIONS['C03'] + [o for o in obs if o.name in ('lock_sm_openSession', 'lock_sm_closeSession', 'lock_sm_closeAllSessions')]
+    # C01 / C11: logout-on-last-close and the notifications of C_CloseSession decide whether private objects stay reachable / which handles die
+    for _p in ('C01', 'C11'):
+        reg.OBLIGATIONS[_p] = reg.OBLIGATIONS[_p] + [o for o in obs if o.name == 'lock_sm_closeSession'] + [o for o in reg.OBLIGATIONS['C03'] if o.name == 'sess_close_s1_t0']
     # Token PIN functions (real Token::setUserPIN / setSOPIN / initUserPIN, harness/C04/token_pin.cpp): the whole operation is ONE critical section of tokenMutex
     reg.OBLIGATIONS['C18'] = reg.OBLIGATIONS['C18'] + [o for o in reg.OBLIGATIONS['C04'] if o.name in ('tokpin_setuserpin', 'tokpin_setsopin', 'tokpin_inituserpin')]
     reg.META['C18'] = dict(
